@@ -379,7 +379,8 @@ Record obs13 := mkObs {
   o_adms : result (list (N * N * graph));        (* sorted by delegation id: (id, graph id, snapshot) *)
   o_store_keys : list N;                         (* graph ids in the store afterwards, sorted *)
   o_arm_after : option graph;                    (* None = identical to the snapshot taken before *)
-  o_rw : list (N * N * (graph * bool));          (* per delegation id: new key, ADM after rewrite_delegations, raised? *)
+  o_rw : list (N * list (N * (graph * bool)));   (* per delegation id, a sequence of re-keyings of its partition:
+                                                    new key, ADM after rewrite_delegations, raised? *)
   o_rw_arm : option (N * list N * (graph * bool)) }.  (* rewrite_delegations on a clone of the ARM itself: new key,
                                                     the store's node order (decides what is already rewritten
                                                     when a node with several ids raises), result, raised? *)
@@ -388,6 +389,13 @@ Record case13 := mkCase { k_arm : graph; k_garm : N; k_supplied : list (N * N); 
 
 Definition eq_rw (r : graph * option exn) (o : graph * bool) : bool :=
   graph_eqb (fst r) (fst o) && Bool.eqb (is_some (snd r)) (snd o).
+
+(* a sequence of rewrite_delegations calls on one graph, each compared with the observation *)
+Fixpoint check_rw_steps (g : graph) (steps : list (N * (graph * bool))) : bool :=
+  match steps with
+  | [] => true
+  | (key, ob) :: r => let res := rewrite_delegations g key in eq_rw res ob && check_rw_steps (fst res) r
+  end.
 
 Definition check13 (k : case13) : bool :=
   let A := k_arm k in
@@ -419,7 +427,7 @@ Definition check13 (k : case13) : bool :=
            forallb (fun x => graph_eqb (sview st (snd (fst x))) (snd x)) OB
        end) &&
       (* rewrite_delegations on every ADM *)
-      list_eqb (fun x y => (fst (fst x) =? fst (fst y)) && eq_rw (rewrite_delegations (snd x) (snd (fst y))) (snd y)) OB (o_rw o)
+      list_eqb (fun x y => (fst (fst x) =? fst y) && check_rw_steps (snd x) (snd y)) OB (o_rw o)
   end &&
   match o_rw_arm o with
   | None => true
